@@ -373,12 +373,13 @@ class PinWorld:
             # failed (its ball dropped back, got stuck or was shaken off) and is still unconfirmed: the newcomer confirms
             # that eject; the source's count is then one short and the newcomer stays booked where it came from
             for sinfo in self.devs.values():
-                if sinfo.target.name != dstname or sinfo.name == ball.src:
+                if sinfo.target.name != dstname:
                     continue
                 for e in reversed(self.eject_log):
                     if e["dev"] != sinfo.name:
                         continue
-                    if e["ball"] is not None and e["outcome"] in ("shake", "fallback", "stuck") \
+                    # (the newcomer may also be a late ball of an earlier eject of the same source)
+                    if e["ball"] is not None and e["ball"] != ball.id and e["outcome"] in ("shake", "fallback", "stuck") \
                             and self.sim.now - e["t"] <= sinfo.eject_timeout + 0.6:
                         self.ambiguous_reentries += 1
                         self.uncountable_devs.add(sinfo.name)
